@@ -5,7 +5,6 @@
    mk_pst rest (out ++ the construct's elements) n fl. *)
 From V.model Require Import Base RelLex RelParse RelAcc RelGrammar.
 From V.proofs Require Import BaseP RelLexP RelParseP RelGrammarLexP.
-Set Default Timeout 60.
 
 Transparent bump skip_ws error expect in_node out_of_fuel version_text version_run cur_is_vtok.
 
